@@ -1,3 +1,4 @@
+import Acme.Props.C03
 import Acme.Props.C14
 import Acme.Props.C17
 import Acme.Props.C19
